@@ -4560,7 +4560,11 @@ class ParameterizedMetaclass(type):
             type.__setattr__(mcs,attribute_name,value)
 
             if isinstance(value,Parameter):
-                mcs.__param_inheritance(attribute_name,value)
+                # same as add_parameter: name the Parameter, let it inherit
+                # and drop the cached namespaces that would now miss it
+                mcs._initialize_parameter(attribute_name,value)
+                for subcls in descendents(mcs):
+                    subcls._param__private.params.clear()
 
     def __param_inheritance(mcs, param_name, param):
         """
